@@ -63,7 +63,8 @@ func runC34(c *core.Ctx) {
 		var cmpCond ir.Cond
 		for _, cd := range ir.Conds(fn) {
 			if b, ok := cd.V.(*ssa.BinOp); ok && b.Op == token.LEQ {
-				if _, isPhi := b.X.(*ssa.Phi); isPhi {
+				if p, _, release := phiVia(b.X, fn); p != nil {
+					release()
 					cmp, cmpCond = b, cd
 				}
 			}
@@ -95,8 +96,9 @@ func runC34(c *core.Ctx) {
 		sinks := ir.CallSinks(ir.CallsTo(fn, ppm), "putPeerPoolMap")
 		eng.Dominates(c, "C34.min-size", fn, guard, sinks, "putPeerPoolMap", nil)
 		// num counts Candidate|Consensus entries of the current view
-		numPhi := cmp.X.(*ssa.Phi)
-		checkActiveCount(c, fn, numPhi, gppm, gv)
+		numPhi, host, release := phiVia(cmp.X, fn)
+		checkActiveCount(c, host, numPhi, gppm, gv)
+		release()
 	}
 
 	// pool writes keyed by the entry's own key
@@ -220,11 +222,14 @@ func checkActiveCount(c *core.Ctx, fn *ssa.Function, numPhi *ssa.Phi, gppm, gv *
 	var cuts []ir.Edge
 	n := 0
 	region := loopRegion(*lp)
-	for _, cd := range ir.Conds(fn) {
-		if ok, _ := active.G(cd); ok && region[cd.If.Block()] {
+	sites, releaseSites := cmpSites(fn)
+	for _, st := range sites {
+		// the status tests of the loop body, or of a predicate helper the body branches on
+		if ok, _ := active.G(ir.Cond{V: st.B}); ok && (st.Host != fn || region[st.B.Block()]) {
 			n++
 		}
 	}
+	releaseSites()
 	_ = cuts
 	c.Decide(n == 2, "C34.min-size", fn, "both CandidateStatus and ConsensusStatus entries are counted", c.P.Rel(lp.Range.Pos()), sprintf("%d status tests", n))
 }
@@ -438,7 +443,9 @@ func checkCommitDpos(c *core.Ctx, ppm *types.Func) {
 		}}
 	}
 	opt := &eng.Opt{StartBlock: lp.Body}
-	c.Decide(len(dels) == 2 && len(promos) == 1, "C34.epoch-transitions", fn, "two delete sites (Quiting, Black) and one promotion site", c.P.Rel(lp.Range.Pos()), sprintf("%d/%d", len(dels), len(promos)))
+	// (how many sites is a matter of style — `case Quiting, Black: delete` is one; what each site is
+	// guarded by and that each status reaches its action is decided below)
+	c.Decide(len(dels) >= 1 && len(promos) >= 1, "C34.epoch-transitions", fn, "the epoch loop has delete site(s) and promotion site(s)", c.P.Rel(lp.Range.Pos()), sprintf("%d/%d", len(dels), len(promos)))
 	if len(dels) > 0 {
 		eng.Dominates(c, "C34.epoch-transitions", fn, statusTest("QuitingStatus", "BlackStatus"), dels, "delete (per iteration)", opt)
 	}
